@@ -18,7 +18,8 @@ VALS = ["(als nee { 1 })", "ja", "0", "-1", "1.5", "\"z\"", "\"\"", "\"lang\"", 
 
 def run(ctx, log):
     # the same small programs at every size around the widths the implementation encodes things in (closed-form results)
-    progcheck.run_scale(ctx, log, ['rtnest', 'objects', 'constants', 'cyclic', 'alias', 'literal'])
+    progcheck.run_scale(ctx, log, ['rtnest', 'objects', 'constants', 'cyclic', 'alias', 'literal', 'text', 'csc'])
+    progcheck.run_scale_wrapped(ctx, log, ['alias', 'cyclic', 'literal', 'objects', 'temporaries', 'rtnest', 'csc', 'constants', 'locals'])
     rng = ctx.rng
     progs = []
     for n in range(0, 7):
